@@ -92,6 +92,30 @@ pub fn from_into(j: &J) -> Result<(bool, Vec<&'static str>), (String, Option<&'s
 	texts(j, &v, "$").map_err(|m| (format!("from_serde_json: {m}"), None))?;
 	crate::objquery::self_consistent(&v).map_err(|m| (format!("from_serde_json(j) is not queryable by key: {m}"), None))?;
 	let back = guarded(|| v.clone().into_serde_json()).map_err(|p| (format!("into_serde_json panicked: {p}"), None))?;
+	// the generic serde routes between the two value types (`to_value(&serde_json_value)`, `from_value::<serde_json::Value>`)
+	// must agree with the dedicated conversions wherever both are exact: integer-only values without the private token
+	fn plain(j: &J) -> bool {
+		match j {
+			J::Number(n) => !n.is_f64(),
+			J::Array(a) => a.iter().all(plain),
+			J::Object(o) => o.iter().all(|(k, x)| !k.starts_with("$serde_json::private") && plain(x)),
+			_ => true,
+		}
+	}
+	if plain(j) {
+		match guarded(|| json_syntax::to_value(j)) {
+			Ok(Ok(v2)) if v2 == v => {}
+			Ok(Ok(v2)) => return Err((format!("to_value(&serde_json_value) = {v2}, from_serde_json gives {v}"), None)),
+			Ok(Err(e)) => return Err((format!("to_value(&serde_json_value) failed on an integer-only value: {e}"), None)),
+			Err(p) => return Err((format!("to_value(&serde_json_value) panicked: {p}"), None)),
+		}
+		match guarded(|| json_syntax::from_value::<J>(v.clone())) {
+			Ok(Ok(j2)) if &j2 == j => {}
+			Ok(Ok(j2)) => return Err((format!("from_value::<serde_json::Value> = {j2}, the original serde_json value is {j}"), None)),
+			Ok(Err(e)) => return Err((format!("from_value::<serde_json::Value> failed on an integer-only value: {e}"), None)),
+			Err(p) => return Err((format!("from_value::<serde_json::Value> panicked: {p}"), None)),
+		}
+	}
 	if &back == j {
 		let via_from: J = v.clone().into();
 		let via_from2: Value = j.clone().into();
@@ -163,7 +187,33 @@ fn nf(v: &RefValue) -> String {
 
 /// json-syntax -> serde_json -> json-syntax on the stated domain
 pub fn into_from(v: &RefValue) -> Result<(bool, Vec<&'static str>), (String, Option<&'static str>)> {
-	let value = v.to_value();
+	// the value as constructed, and the same value after in-place canonicalization / sorting of its objects
+	// (the round trip is then compared with what the accessors read back)
+	into_from_value(v, v.to_value())?;
+	let h = crate::framework::hash64(&crate::refprint::compact(v));
+	let mut value = v.to_value_route((h % 7) as u8);
+	if h & 8 == 0 {
+		value.canonicalize();
+	} else if let Some(o) = value.as_object_mut() {
+		o.sort();
+	}
+	crate::objquery::self_consistent(&value).map_err(|m| (format!("value canonicalized/sorted before the conversion is not queryable by key: {m}"), None))?;
+	let model = RefValue::from_value(&value);
+	let r = into_from_value(&model, value.clone());
+	// library-level comparison of the round trip as well (integer-only values keep their spelling)
+	let mut nums = vec![];
+	model.all_numbers(&mut nums);
+	if r.is_ok() && nums.iter().all(|n| n.parse::<i64>().map(|i| i.to_string() == **n).unwrap_or(false)) {
+		use json_syntax::BorrowUnordered;
+		let back = Value::from_serde_json(value.clone().into_serde_json());
+		if back.as_unordered() != value.as_unordered() {
+			return Err(("from_serde_json(into_serde_json(v)) is not unordered-equal to the canonicalized/sorted v".into(), None));
+		}
+	}
+	r
+}
+
+fn into_from_value(v: &RefValue, value: Value) -> Result<(bool, Vec<&'static str>), (String, Option<&'static str>)> {
 	let j = guarded(|| value.clone().into_serde_json()).map_err(|p| (format!("into_serde_json panicked: {p}"), None))?;
 	// side condition: each number equals what serde_json's own FromStr makes of the token
 	let mut nums = vec![];
